@@ -134,6 +134,38 @@ fn uninspected_program(rng: &mut Rng, ty: &Ty, shape: usize) -> (Program, Vec<(S
 
 pub fn run(cx: &mut Ctx) {
     examples(cx);
+    // corpus regression inputs (programs with a witness file), shard 0; a file named
+    // `*_succeeds.simf` must also run successfully with its witness
+    if cx.shard == 0 && cx.only_case.is_none() {
+        for (name, text, wv) in corpus_with_witness() {
+            for debug in [false, true] {
+                let Ok(built) = build(&text, &simfony::Arguments::default(), debug) else {
+                    cx.report.harness_error(json!({"what": format!("corpus input {name} does not compile")}));
+                    continue;
+                };
+                let sig = format!("redeem:corpus:{name}");
+                judge_redeem(cx, &format!("corpus/{name}"), &built, &wv, json!(name), debug, &sig);
+                if name.ends_with("_succeeds.simf") {
+                    cx.report.evaluations += 1;
+                    let ok = match satisfy(&built.compiled, &wv, None) {
+                        Outcome::Ok(sat) => {
+                            let (pb, wb) = sat.redeem().encode_to_vec();
+                            match decode_redeem(&pb, &wb) {
+                                Outcome::Ok(d) => matches!(exec_redeem(&d, &cx.env), Outcome::Ok(Ok(()))),
+                                _ => false,
+                            }
+                        }
+                        _ => false,
+                    };
+                    if !ok {
+                        cx.report.violation(json!({"kind": "corpus", "what": format!("corpus/{name} (debug = {debug}) must run successfully with its witness and does not"),
+                            "program": text, "signature": format!("corpus-verdict:{name}")}));
+                    }
+                }
+                cx.report.count("corpus_inputs", 1);
+            }
+        }
+    }
     let n: u64 = if cx.thorough { 40_000 } else { 1_200 };
     for i in cx.cases(n) {
         if cx.out_of_time() {
